@@ -12,6 +12,10 @@ class SimTimeout(Exception):
     pass
 
 
+class SimXmitError(Exception):
+    """the reader receives a garbled frame (transmission error); the tag did not execute the command"""
+
+
 class SimTagBase(object):
     def __init__(self):
         self.log = []            # (unit, [bytes]) per state-changing command that was executed
@@ -19,6 +23,38 @@ class SimTagBase(object):
         self.powered = True
         self.ncmd = 0            # all commands received while powered
         self.on_write = None     # callback(unit, bytes) after each executed state-changing command
+        self.on_sel = None       # callback(sector) after each executed sector switch (Type 2)
+        self.on_fault = None     # callback(kind, at) when a fault is injected
+        # transient RF fault: dict(at=<index of the frame counted from arm()>, kind="burst"|"xerr"|"nak")
+        #   burst: this frame and the next two are lost (no answer, not executed): one command with its retransmissions
+        #   xerr : the frame is not executed, the reader sees a transmission error (one frame)
+        #   nak  : the tag answers NAK and does not execute (Type 2)
+        self.fault = None
+        self.frames = 0          # frames received since arm()
+        self.kinds = []          # kind of every frame since arm(): read | write | ss1 | ss2 | other
+
+    def arm(self, fault=None):
+        self.fault = fault
+        self.frames = 0
+        self.kinds = []
+
+    def _inject(self, kind_of_frame):
+        """called for every frame that reaches a powered tag; returns None or the fault kind to apply"""
+        i = self.frames
+        self.frames += 1
+        self.kinds.append(kind_of_frame)
+        f = self.fault
+        if not f:
+            return None
+        if f["kind"] == "burst" and f["at"] <= i < f["at"] + 3:
+            if i == f["at"] and self.on_fault:
+                self.on_fault("burst", kind_of_frame)
+            return "burst"
+        if f["kind"] in ("xerr", "nak") and i == f["at"]:
+            if self.on_fault:
+                self.on_fault(f["kind"], kind_of_frame)
+            return f["kind"]
+        return None
 
     def _state_change(self, unit, data):
         self.log.append((unit, list(data)))
@@ -36,6 +72,11 @@ class SimTagBase(object):
     def power_cycle(self):
         self.powered = True
         self.cut_after = None
+        self.fault = None
+        self._reset_volatile()
+
+    def _reset_volatile(self):
+        pass
 
 
 class SimT2T(SimTagBase):
@@ -52,6 +93,10 @@ class SimT2T(SimTagBase):
         self.sector = 0
         self._sel = False
 
+    def _reset_volatile(self):
+        self.sector = 0
+        self._sel = False
+
     @property
     def nsectors(self):
         return (len(self.mem) + 1023) // 1024
@@ -60,10 +105,21 @@ class SimT2T(SimTagBase):
         data = bytearray(data)
         self.check_power()
         self.ncmd += 1
+        kind = "ss2" if self._sel else {0x30: "read", 0xA2: "write", 0xC2: "ss1"}.get(data[0], "other")
+        flt = self._inject(kind)
+        if flt is not None:
+            self._sel = False               # a tag waiting for packet 2 returns to its normal state, sector unchanged
+            if flt == "burst":
+                raise SimTimeout()
+            if flt == "xerr":
+                raise SimXmitError()
+            return bytearray([0x00])        # NAK
         if self._sel:                       # SECTOR SELECT packet 2
             self._sel = False
             if len(data) == 4 and data[0] < self.nsectors:
                 self.sector = data[0]
+                if self.on_sel:
+                    self.on_sel(self.sector)
                 raise SimTimeout()          # passive ack
             return bytearray([0x00])
         if len(data) == 2 and data[0] == 0x30:
@@ -127,6 +183,11 @@ class SimT1T(SimTagBase):
         self.check_power()
         self.ncmd += 1
         c = data[0]
+        flt = self._inject("write" if c in (0x53, 0x1A, 0x54, 0x1B) else "read")
+        if flt is not None:
+            if flt == "xerr":
+                raise SimXmitError()
+            raise SimTimeout()              # a Type 1 Tag has no NAK: silence
         if c == 0x78 and len(data) == 7:
             return bytearray([self.hr0, self.hr1]) + self.uid
         if bytes(data[-4:]) != self.uid:
